@@ -2,7 +2,7 @@
 SPECIFICATION Spec
 CONSTANTS
   Clients = {"c1", "c2"}
-  MaxReq = 2
+  MaxReq = 1
   JunkKinds = {"garbage", "badnoise", "cberr"}
   MaxJunk = 1
   MaxDup = 1
@@ -12,6 +12,5 @@ CONSTANTS
   KeyCheck = TRUE
   Timeout = FALSE
 VIEW view
-INVARIANTS TypeOK NoCrossTalk ResultsInOrder OkImpliesProcessed CallbackBound AnsweredOnce ErrNeedsDup
-PROPERTIES ResponseToSender
+INVARIANTS TypeOK NoCrossTalk ResultsInOrder OkImpliesProcessed CallbackBound AnsweredOnce ResponsesAccounted ErrNeedsDup
 CHECK_DEADLOCK FALSE
